@@ -83,6 +83,22 @@ def make(targets, timeout=1800):
     return sh(["timeout", str(timeout), "make", "-j%d" % JOBS] + targets, cwd=COQ, timeout=timeout + 30)
 
 
+def coqchk(prop, timeout=1500):
+    """independent re-check of Properties/<prop>.vo and everything it depends on; -o lists the axioms
+    the checked context relies on.  -> dict(ok, axioms, wall_s, tail)"""
+    rc, out, dt = sh(["timeout", str(timeout), "coqchk", "-silent", "-o", "-Q", ".", "AT", "AT.Properties." + prop],
+                     cwd=COQ, timeout=timeout + 30)
+    axioms = None
+    m = re.search(r"\* Axioms:\s*(.*?)\n\s*\n\* Constants/Inductives relying on type-in-type:\s*(.*?)\n\s*\n"
+                  r"\* Constants/Inductives relying on unsafe \(co\)fixpoints:\s*(.*?)\n\s*\n"
+                  r"\* Inductives whose positivity is assumed:\s*(.*?)\n", out, re.S)
+    clean = False
+    if m:
+        axioms = " ".join(m.group(1).split())
+        clean = all(" ".join(g.split()) == "<none>" for g in m.groups()[1:])
+    return {"ok": rc == 0 and m is not None and clean, "axioms": axioms, "wall_s": round(dt, 1), "tail": out[-600:]}
+
+
 def hygiene():
     """forbidden vocabulary anywhere in the development (comments included);
     Variable/Hypothesis only inside a Section"""
@@ -325,10 +341,11 @@ def write_replay(prop, kind, payload):
 
 
 def write_evidence(prop, tier, seed, coverage, assumptions, wall_s, violations):
-    os.makedirs(os.path.join(VERIF, "evidence"), exist_ok=True)
+    evdir = os.environ.get("VERIF_EVIDENCE_DIR") or os.path.join(VERIF, "evidence")   # dev runs may divert it
+    os.makedirs(evdir, exist_ok=True)
     ev = {"property_id": prop, "tier": tier, "seed": seed, "level": "proof", "coverage": coverage,
           "assumptions": assumptions, "wall_s": round(wall_s, 2), "violations": violations}
-    with open(os.path.join(VERIF, "evidence", prop + ".json"), "w") as fh:
+    with open(os.path.join(evdir, prop + ".json"), "w") as fh:
         json.dump(ev, fh, indent=1, sort_keys=True, default=str)
     return ev
 
